@@ -171,6 +171,10 @@ def run(chk):
                 "random events")
     g = Graph.load("MeshDhcp", "MeshDhcp" if quick else "MeshDhcp_thorough", timeout=2400)
     chk.add_tlc(g.result, "allocation algorithm vs lease clauses + graph export")
+    # unbounded history length: Injective (table and saved file) is inductive - one step of Next from EVERY injective table
+    ri = tlc.mc("MeshDhcp", "MeshDhcp_ind" if quick else "MeshDhcp_ind3", timeout=3000)
+    chk.add_tlc(ri, "inductive step from every injective table x saved file (%d ids): invariant + all lease clauses on every transition, "
+                    "hence at every depth" % (2 if quick else 3))
     chk.phase('mc+graph')
     paths = g.tour()
     chk.phase('tour')
